@@ -61,3 +61,9 @@ Require Import GM.proofs.ParseBlocksTotal GM.proofs.ParseInv.
 Theorem C01_parse_blocks_total : forall src, bytes_ok src -> exists r, ParseBlocksTree src = Ok r.
 Proof. exact ParseBlocksTree_total. Qed.
 Print Assumptions C01_parse_blocks_total.
+(* once the (unchecked) parser model has returned its tree, rendering cannot fail, in any
+   configuration: the tree is well formed by C05_parser_output_wf *)
+Require Import GM.proofs.ParseFinal.
+Theorem C01_convert_model_render_total : forall c src t, bytes_ok src -> ParseTree src = Ok t -> exists o, ConvertModel c src = Ok o.
+Proof. exact ConvertModel_render_total_all. Qed.
+Print Assumptions C01_convert_model_render_total.
